@@ -691,6 +691,7 @@ var c20Fallbacks = map[string]string{
 	"github.com/vektra/mockery/tools/cmd.Tagger.createTag|ARG0.DeleteTag<(github.com/go-git/go-git/v5.Repository).DeleteTag>(v) == nil":                                                                          "deleting a tag that does not exist yet fails; the tag is created next and that error is returned",
 	"github.com/vektra/mockery/tools/cmd.Tagger.largestTagSemver|ARG0.TagObject<(github.com/go-git/go-git/v5.Repository).TagObject>(ref.Hash<(github.com/go-git/go-git/v5/plumbing.Reference).Hash>())#1 == nil": "lightweight tags have no tag object (ErrObjectNotFound); every other error is held to R20.4 tag-object-error",
 	"github.com/vektra/mockery/tools/cmd.printStack|ARG0 == nil": "prints the error it was given; the caller exits non-zero",
+	"callee:(github.com/go-git/go-git/v5.Repository).DeleteTag":  "deleting a tag that does not exist yet fails; the tag is created next and that error is returned (one library call, wherever it is made)",
 }
 
 // rangeOverLit: fd contains `for ... := range []T{a, b}` with exactly these identifiers.
